@@ -62,7 +62,16 @@ def _prop(rng, tier, lo, hi, base=None):
     return _spd(rng, lo, hi)
 
 
-def gen_pool(rng):
+# tier combinations (eps, mu, sigma_e, sigma_m) in which one property needs a wider array than the others: the
+# allocation of each array must follow its OWN widest tier.  Walked cyclically over the cases of a run, on a domain
+# that admits spheres and cylinders, next to the fully random pools.
+TIER_GRID = [
+    (1, 0, 0, 3), (1, 3, 0, 0), (1, 0, 3, 0), (3, 0, 0, 0), (1, 0, 1, 3), (1, 1, 3, 1), (1, 9, 0, 0), (1, 0, 0, 9),
+    (1, 0, 9, 1), (3, 1, 1, 9), (9, 1, 0, 3), (1, 3, 1, 0), (3, 9, 3, 1), (1, 1, 1, 3), (1, 0, 3, 9), (9, 0, 0, 0),
+]
+
+
+def gen_pool(rng, forced_tiers=None):
     """Per-case pool: one domain, a few object shapes and the tier targets.  Scenes of a case re-use the pool with
     new positions / orders / materials / list orders (keeps the number of distinct XLA programs small)."""
     import numpy as np
@@ -77,7 +86,11 @@ def gen_pool(rng):
         c = rng.random()
         dims.append(1 if c < 0.08 else (2 if c < 0.16 else int(rng.integers(3, 10))))
     spacing = float(rng.choice([20e-9, 50e-9, 73e-9]))
-    pool = {"shape": dims, "spacing": spacing, "grid_kind": grid_kind, "tiers": [t_eps, t_mu, t_se, t_sm]}
+    if forced_tiers is not None:
+        t_eps, t_mu, t_se, t_sm = forced_tiers
+        grid_kind = "uniform"
+        dims = [max(d, 4) for d in dims]
+    pool = {"shape": dims, "spacing": spacing, "grid_kind": grid_kind, "tiers": [t_eps, t_mu, t_se, t_sm], "forced": forced_tiers is not None}
     if grid_kind == "rect":
         edges = []
         for a in range(3):
@@ -119,7 +132,7 @@ def gen_scene(rng, pool=None):
             opts = [x for x in (0, 1, 3, 9) if x <= t]
             if j == 0:
                 opts = [x for x in opts if x >= 1]
-            tiers.append(t if force == j else int(rng.choice(opts)))
+            tiers.append(t if (force == j or force == "all") else int(rng.choice(opts)))
         m = {"eps": _prop(rng, tiers[0], 1.0, 12.0)}
         mu = _prop(rng, tiers[1], 1.2, 4.0)
         if mu is not None:
@@ -134,13 +147,17 @@ def gen_scene(rng, pool=None):
 
     scene["volume"] = material() if rng.random() < 0.6 else {"eps": 1.0}
     k = int(rng.choice([0, 1, 2, 3, 4, 5, 6, 7]))
+    if pool.get("forced"):
+        k = max(k, 2)
     orders_pool = [int(x) for x in rng.choice([-5, 0, 0, 1, 1, 2, 7], size=3)]
     objs = []
     for i in range(k):
         kind = "box"
         if pool["sphere"] is not None and rng.random() < 0.45:
             kind = "sphere" if rng.random() < 0.5 else "cylinder"
-        o = {"name": f"s{i}", "kind": kind, "order": int(rng.choice(orders_pool)), "mat": material(force=i % 4 if i < 4 else None)}
+        if pool.get("forced") and pool["sphere"] is not None and i < 2:
+            kind = ("sphere", "cylinder")[i]  # in the tier-grid pools a sphere and a cylinder reach every target tier
+        o = {"name": f"s{i}", "kind": kind, "order": int(rng.choice(orders_pool)), "mat": material(force="all" if (pool.get("forced") and i < 2) else (i % 4 if i < 4 else None))}
         if kind == "box":
             if rng.random() < 0.2 and objs and objs[-1]["kind"] == "box":
                 lo, hi = list(objs[-1]["lo"]), list(objs[-1]["hi"])  # identical box (order tie hostile class)
@@ -311,7 +328,9 @@ def run_case(case):
 
     r = Res()
     rng = np.random.default_rng(case["gen_seed"])
-    pool = gen_pool(rng)
+    # every second case takes its tier targets from the systematic grid
+    forced = TIER_GRID[(case.get("idx", 0) // 2) % len(TIER_GRID)] if case.get("idx", 0) % 2 == 1 else None
+    pool = gen_pool(rng, forced)
     for j in range(case["n"]):
         scene = gen_scene(rng, pool)
         _judge(scene, r, {"gen_seed": case["gen_seed"], "scene_index": j})
